@@ -72,6 +72,7 @@ type Contract struct {
 	Results  []string // for extern: result names
 	Asserts  map[string]*Clause
 	Bounded  int
+	GhostPuts []GhostPut // `ghostput <map> <object>, <key>, <value>`: the call sets key to value in the object's ghost map
 	GhostAdds []GhostAdd // `ghostadd <set> <object expr> <element expr>`: the call adds the element to the object's ghost set
 	NoSafety bool    // `nosafety`: panic-freedom / overflow obligations of this function are assumed, not claimed
 	NoAlloc  bool    // the callee allocates nothing the caller can observe (results point to existing objects)
@@ -87,6 +88,12 @@ type GhostAdd struct {
 	Set  string
 	Obj  *Clause
 	Elem *Clause
+}
+
+// GhostPut: effect clause of a (trusted) contract on a named ghost map (byte-string keys and values) of an object.
+type GhostPut struct {
+	Map           string
+	Obj, Key, Val *Clause
 }
 
 type Pred struct {
@@ -407,7 +414,7 @@ var loopRe = regexp.MustCompile(`^loop\s+([0-9]+)\s*:\s*(invariant|decreases)\s+
 
 var clauseKeywords = map[string]bool{"func": true, "extern": true, "pred": true, "lemma": true, "axiom": true, "requires": true, "ensures": true,
 	"assigns": true, "pure": true, "wrapping": true, "trusted": true, "inline": true, "props": true, "loop": true, "let": true,
-	"induct": true, "uses": true, "bounded": true, "excluding": true, "global-inv": true, "binding": true, "except": true, "allocbound": true, "function": true, "noalloc": true, "ghostadd": true, "nosafety": true}
+	"induct": true, "uses": true, "bounded": true, "excluding": true, "global-inv": true, "binding": true, "except": true, "allocbound": true, "function": true, "noalloc": true, "ghostadd": true, "nosafety": true, "ghostput": true}
 
 func parseContractFile(path string, pkgPath string) (*ContractFile, error) {
 	f, err := os.Open(path)
@@ -604,6 +611,25 @@ func parseContractFile(path string, pkgPath string) (*ContractFile, error) {
 				return nil, err
 			}
 			cur.GhostAdds = append(cur.GhostAdds, GhostAdd{Set: fs[0], Obj: oc, Elem: ec})
+			cur.HasFrame = true
+		case kw == "ghostput":
+			fs := strings.SplitN(rest, " ", 2)
+			if len(fs) != 2 {
+				return nil, fmt.Errorf("%s:%d: bad ghostput", path, rl.line)
+			}
+			parts := splitTop(fs[1], ",")
+			if len(parts) != 3 {
+				return nil, fmt.Errorf("%s:%d: ghostput needs <object>, <key>, <value>", path, rl.line)
+			}
+			var cs [3]*Clause
+			for i, p := range parts {
+				c, err := mk(p, rl.line)
+				if err != nil {
+					return nil, err
+				}
+				cs[i] = c
+			}
+			cur.GhostPuts = append(cur.GhostPuts, GhostPut{Map: fs[0], Obj: cs[0], Key: cs[1], Val: cs[2]})
 			cur.HasFrame = true
 		case kw == "nosafety":
 			cur.NoSafety = true
